@@ -1,7 +1,9 @@
 """C20 — bounded gather respects its bound and its error contract (symbolic scheduler harness, CrossHair)."""
 import ast
+import concurrent.futures as cf
 import json
 import math
+import threading
 
 from vt import chrun, loader
 from vt.common import HarnessError
@@ -135,7 +137,7 @@ def run(R):
     shards = []
     for mode, holder, P, n, fam, omax, dmax, umax in cfgs:
         nperm = math.factorial(n)
-        step = (3 if quick else 1) if n == 3 else 1
+        step = (2 if quick else 1) if n == 3 else 1
         for lo in range(0, nperm, step):
             shards.append((mode, holder, P, n, lo, min(lo + step, nperm), fam, omax, dmax, umax))
 
@@ -147,24 +149,35 @@ def run(R):
     spent = {s: 0.0 for s in shards}
     reported = set()
     twin_res = {}
-    for rnd in range(max_rounds):
-        todo = [s for s in shards if s not in settled]
-        if not todo:
-            break
-        run_mask = {s: excused[key(s)] for s in todo}
-        conds = [(s, run_mask[s]) for s in todo]
-        twins = todo if rnd == 0 else []
-        gm = chrun.gen_module(f'C20_conditions_{R.tier}_r{rnd}', T.source(conds, twins))
-        targets = [f'{gm}.{T.cond_name(s, m)}' for s, m in conds] + [f'{gm}.{T.twin_name(s)}' for s in twins]
-        res = chrun.run(targets, per_condition_timeout=pct, workers=8)
-        if rnd == 0:
-            for s in todo:
-                twin_res[s] = res[f'{gm}.{T.twin_name(s)}'][0]
-        for s in todo:
-            mode, holder, P, n, lo, hi, fam, omax, dmax, umax = s
-            v, msg, dt = res[f'{gm}.{T.cond_name(s, run_mask[s])}']
-            spent[s] += dt
-            if v == 'refuted':
+    lock = threading.Lock()
+    errors = []
+
+    # one reachability twin per (configuration, family), over all resolve orders
+    twin_of = {}
+    for s in shards:
+        mode, holder, P, n, lo, hi, fam, omax, dmax, umax = s
+        twin_of[s] = (mode, holder, P, n, 0, math.factorial(n), fam, omax, dmax, umax)
+
+    def run_twin(t):
+        gm = chrun.gen_module(f'C20_{R.tier}_{T.twin_name(t)}', T.source([], [t]))
+        r = chrun.run([f'{gm}.{T.twin_name(t)}'], per_condition_timeout=pct, workers=1)
+        with lock:
+            twin_res[t] = r[f'{gm}.{T.twin_name(t)}'][0]
+
+    def run_shard(s):
+        """refute -> replay -> classify -> report -> excuse -> re-run, until confirmed (no barrier between shards)"""
+        mode, holder, P, n, lo, hi, fam, omax, dmax, umax = s
+        for rnd in range(max_rounds):
+            with lock:
+                m = excused[key(s)]
+            gm = chrun.gen_module(f'C20_{R.tier}_{T.cond_name(s, m)}', T.source([(s, m)], []))
+            tgt = f'{gm}.{T.cond_name(s, m)}'
+            v, msg, dt = chrun.run([tgt], per_condition_timeout=pct, workers=1)[tgt]
+            with lock:
+                spent[s] += dt
+                if v != 'refuted':
+                    settled[s] = (v, m, msg)
+                    return
                 args = chrun.parse_counterexample(msg, T.argnames(s))
                 if args is None:
                     raise HarnessError(f'cannot parse CrossHair counterexample: {msg}')
@@ -175,7 +188,7 @@ def run(R):
                        'cpoint': args['cp'] if fam == 'C' else H.NEVER, 'cdrain': args['cd'] if fam == 'C' else 0,
                        'unwind': args['uw']}
                 mask, info = _run(H, rep)
-                new = mask & ~run_mask[s]
+                new = mask & ~m
                 if not new:
                     raise HarnessError(f'CrossHair counterexample does not reproduce concretely: {s} {msg}')
                 for bit in H.all_bits():
@@ -192,8 +205,21 @@ def run(R):
                         R.ob(f'{cls}: caller_holds_permit={holder}, P={P}, N={n}', st, dt,
                              {'cex': rep, 'info': info}, nontrivial=True)
                 excused[key(s)] |= new
-            else:
-                settled[s] = (v, run_mask[s], msg)
+
+    def guarded(f, x):
+        try:
+            f(x)
+        except Exception as e:   # re-raised in the main thread
+            errors.append(e)
+
+    jobs = [(run_shard, s) for s in shards] + [(run_twin, t) for t in sorted(set(twin_of.values()))]
+    with cf.ThreadPoolExecutor(max_workers=8) as ex:
+        for f, x in jobs:
+            ex.submit(guarded, f, x)
+    if errors:
+        raise errors[0]
+    for s in shards:
+        twin_res[s] = twin_res.get(twin_of[s])
     for s in shards:
         mode, holder, P, n, lo, hi, fam, omax, dmax, umax = s
         famtxt = 'no outer cancel' if fam == 'S' else 'caller cancelled at a symbolic point'
